@@ -33,6 +33,11 @@
                              value -> false" included (FALSE: the shortcut returns before the negation) --
                              MatchAgrees.
 
+     M_LowerCopies           case folding works on a copy of the data (bytes.ToLower); FALSE: the
+                             case-insensitive `contains` path lower-cases the caller's bytes in place --
+                             DataUnchanged ("records within the limit are never altered": the exception
+                             check runs on the very bytes Pipeline.In decodes afterwards).
+
    PART "match":  cfg/matchrule Rule.Match / RuleSet.Match (what decides "a matching exception"),
    transcribed with Prepare's lower-casing, the min/max value-size shortcuts and Invert, against the
    declarative meaning: a rule matches iff Invert # (some value is a prefix / infix / suffix of the
@@ -53,7 +58,7 @@ CONSTANTS
   Ts, WithDisabled,   \* thresholds >= 1, or 0 = block whatever no rule covers; WithDisabled adds the threshold -1 (TLC cfg files have no negative literals)
   T2s, Us, Modes,
   D_ResidualAfterUnban, D_ExceptionsIgnoredWithRules,
-  M_CapPerSource, M_InvertAfterShortcut,
+  M_CapPerSource, M_InvertAfterShortcut, M_LowerCopies,
   MSyms,            \* match: symbols of data and values (1 = a, 2 = b, 3 = A, the upper case of 1)
   MDataMax, MValMax,\* match: length bounds of data / values
   MCi,              \* match: candidate case_insensitive flags
@@ -194,14 +199,22 @@ RuleMatch(r, raw) ==                         \* func (r *Rule) Match(raw)
          IF Len(raw) < MinOf({Len(RulePrepared(r)[i]) : i \in DOMAIN r.vals}) THEN FALSE
          ELSE LET ok == RuleMatchInner(r, raw, FALSE) IN IF r.inv THEN ~ok ELSE ok
 
+\* what evaluating one rule leaves in the caller's bytes (Match reads them only -- unless M_LowerCopies is off)
+RuleLeaves(r, raw) ==
+  IF ~M_LowerCopies /\ r.mode = "contains" /\ r.ci
+       /\ Len(raw) >= MinOf({Len(RulePrepared(r)[i]) : i \in DOMAIN r.vals})
+    THEN Lower(raw) ELSE raw
+
 RECURSIVE RuleSetLoop(_, _, _, _)
-RuleSetLoop(rules, cond, data, i) ==         \* the loop of func (rs *RuleSet) Match(data)
-  IF i > Len(rules) THEN cond = "and"
+RuleSetLoop(rules, cond, data, i) ==         \* the loop of func (rs *RuleSet) Match(data); data = the caller's bytes
+  IF i > Len(rules) THEN [m |-> cond = "and", data |-> data]
   ELSE LET m == RuleMatch(rules[i], data)
-       IN IF m /\ cond = "or" THEN TRUE
-          ELSE IF ~m /\ cond = "and" THEN FALSE
-          ELSE RuleSetLoop(rules, cond, data, i + 1)
-RuleSetMatch(c) == IF Len(c.rules) = 0 THEN FALSE ELSE RuleSetLoop(c.rules, c.cond, c.data, 1)
+           d1 == RuleLeaves(rules[i], data)
+       IN IF m /\ cond = "or" THEN [m |-> TRUE, data |-> d1]
+          ELSE IF ~m /\ cond = "and" THEN [m |-> FALSE, data |-> d1]
+          ELSE RuleSetLoop(rules, cond, d1, i + 1)
+RuleSetEval(c) == IF Len(c.rules) = 0 THEN [m |-> FALSE, data |-> c.data] ELSE RuleSetLoop(c.rules, c.cond, c.data, 1)
+RuleSetMatch(c) == RuleSetEval(c).m
 
 (* --- declarative meaning --- *)
 Fold(r, str) == IF r.ci THEN Lower(str) ELSE str
@@ -217,6 +230,8 @@ SetMeans(c) == IF c.cond = "and" THEN \A i \in DOMAIN c.rules : RuleMeans(c.rule
                ELSE \E i \in DOMAIN c.rules : RuleMeans(c.rules[i], c.data)
 
 MatchAgrees == part = "match" => RuleSetMatch(mt) = SetMeans(mt)
+\* evaluating a rule set is read-only on the record
+DataUnchanged == part = "match" => RuleSetEval(mt).data = mt.data
 
 MatchExport == [part |-> "match", cond |-> mt.cond, data |-> mt.data,
                 rules |-> [i \in DOMAIN mt.rules |->
